@@ -38,7 +38,8 @@ EXC = {'ValueError': '.py .valueError', 'TypeError': '.py .typeError', 'IndexErr
 ANN = {'int': 'int', 'str': 'str', 'bool': 'bool'}
 LEAN_T = {'int': 'Int', 'str': 'Str', 'bool': 'Bool', 'optpoint': 'Option Point', 'obj': 'AStr',
           'slist': 'List Setting', 'setting': 'Setting', 'point': 'Point', 'optslist': 'Option (List Setting)',
-          'pairs': 'List (Nat × Nat)', 'fmtitems': 'Fmts', 'optint': 'Option Int', 'optstr': 'Option Str', 'char': 'Char'}
+          'pairs': 'List (Nat × Nat)', 'fmtitems': 'Fmts', 'optint': 'Option Int', 'optstr': 'Option Str', 'char': 'Char',
+          'idxmap': 'List (Int × List Setting)', 'ilist': 'List Int'}
 OPT_OF = {'int': 'optint', 'str': 'optstr', 'slist': 'optslist'}
 BASE_OF = {v: k for k, v in OPT_OF.items()}
 
@@ -102,7 +103,7 @@ class M:
         return any(isinstance(n, ast.Assign) and len(n.targets) == 1 and isinstance(n.targets[0], ast.Name) and n.targets[0].id == name
                    and isinstance(n.value, ast.Constant) and n.value.value is None for n in ast.walk(self.fn))
 
-    def none_type(self, name):
+    def none_type(self, name, env=None):
         """type of a variable that is assigned `None` somewhere: decided by its other assignments"""
         for n in ast.walk(self.fn):
             if isinstance(n, ast.Assign) and len(n.targets) == 1 and isinstance(n.targets[0], ast.Name) and n.targets[0].id == name:
@@ -113,6 +114,12 @@ class M:
                     return 'optpoint'
                 if isinstance(v, ast.Constant) and isinstance(v.value, int) and not isinstance(v.value, bool):
                     return 'optint'
+                if isinstance(v, ast.Name):
+                    ty = (env or {}).get(v.id)
+                    if ty in OPT_OF:
+                        return OPT_OF[ty]
+                    if ty is None and any(isinstance(f, ast.For) and isinstance(f.target, ast.Name) and f.target.id == v.id for f in ast.walk(self.fn)):
+                        return 'optint'           # a loop variable over indices
         return 'optpoint'
 
     # -- expressions ------------------------------------------------------------------------------
@@ -211,6 +218,55 @@ class M:
                 inner = ' && '.join(conds + [body])
                 body = '(%s.any (fun %s => %s))' % (src, pat, inner)
             return body, 'bool'
+        if isinstance(e, ast.Subscript) and not isinstance(e.slice, ast.Slice) and isinstance(e.value, ast.Name) \
+                and env.get(e.value.id) == 'idxmap':
+            k = self.typed(e.slice, env, 'int')
+            return self.hoist('Py.assocGet %s %s' % (mangle(e.value.id), k)), 'slist'      # KeyError when absent
+        if isinstance(e, ast.Call) and isinstance(e.func, ast.Attribute) and e.func.attr == 'keys' and not e.args and not e.keywords \
+                and isinstance(e.func.value, ast.Name) and env.get(e.func.value.id) == 'idxmap':
+            return '(%s.map (·.1))' % mangle(e.func.value.id), 'ilist'
+        if isinstance(e, ast.Call) and isinstance(e.func, ast.Name) and e.func.id == 'sorted' and len(e.args) == 1:
+            a, ta = self.ex(e.args[0], env)
+            kw = {k.arg: k.value for k in e.keywords}
+            if ta == 'ilist' and set(kw) <= {'reverse'}:
+                rv = self.b(kw['reverse'], env) if 'reverse' in kw else 'false'
+                return '(Py.sortedInts %s %s)' % (a, rv), 'ilist'
+            raise Unsupported(ast.unparse(e))
+        if isinstance(e, ast.ListComp) and len(e.generators) == 1 and isinstance(e.generators[0].target, ast.Name) \
+                and not e.generators[0].is_async and len(e.generators[0].ifs) == 1 \
+                and isinstance(e.elt, ast.Name) and e.elt.id == e.generators[0].target.id:
+            g = e.generators[0]
+            src, ts = self.ex(g.iter, env)
+            if ts == 'ilist':
+                x = g.target.id
+                if x in env:
+                    raise Unsupported('comprehension variable shadows ' + x)
+                before = len(self.pending)
+                env2 = dict(env); env2[x] = 'int'
+                c = self.b(g.ifs[0], env2)
+                for v, ex_ in self.pending[before:]:
+                    if mangle(x) in ex_.replace('.', ' ').replace('(', ' ').replace(')', ' ').split():
+                        raise Unsupported('a hoisted read depends on the comprehension variable')
+                return '((%s).filter (fun %s => %s))' % (src, mangle(x), c), 'ilist'
+        if isinstance(e, ast.Compare) and len(e.ops) == 1 and isinstance(e.ops[0], (ast.In, ast.NotIn)) \
+                and isinstance(e.left, ast.Constant) and e.left.value is False and isinstance(e.comparators[0], ast.ListComp) \
+                and len(e.comparators[0].generators) == 1 and not e.comparators[0].generators[0].ifs \
+                and isinstance(e.comparators[0].generators[0].target, ast.Name):
+            # False [not] in [<bool> for x in <list>]
+            lc = e.comparators[0]
+            g = lc.generators[0]
+            src = self.typed(g.iter, env, 'slist')
+            x = g.target.id
+            if x in env:
+                raise Unsupported('comprehension variable shadows ' + x)
+            before = len(self.pending)
+            env2 = dict(env); env2[x] = 'setting'
+            c = self.b(lc.elt, env2)
+            for v, ex_ in self.pending[before:]:
+                if mangle(x) in ex_.replace('.', ' ').replace('(', ' ').replace(')', ' ').split():
+                    raise Unsupported('a hoisted read depends on the comprehension variable')
+            allp = '(%s.all (fun %s => %s))' % (src, mangle(x), c)
+            return (allp if isinstance(e.ops[0], ast.NotIn) else '(!%s)' % allp), 'bool'
         if isinstance(e, ast.Subscript) and not isinstance(e.slice, ast.Slice) and not self.is_fmts(e.value, env):
             a, ta = self.ex(e.value, env)
             if ta == 'slist':
@@ -318,6 +374,10 @@ class M:
                     s = '(Obj.has %s.fmts %s)' % (d, k)
                     return (s if isinstance(o, ast.In) else '(!%s)' % s), 'bool'
                 raise Unsupported(ast.unparse(e))
+            if isinstance(o, (ast.In, ast.NotIn)) and isinstance(r, ast.Name) and env.get(r.id) == 'idxmap':
+                k = self.typed(l, env, 'int')
+                s_ = '(%s.any (fun kv_ => kv_.1 == %s))' % (mangle(r.id), k)
+                return (s_ if isinstance(o, ast.In) else '(!%s)' % s_), 'bool'
             if isinstance(o, (ast.In, ast.NotIn)) and not self.is_fmts(r, env):
                 a, ta = self.ex(l, env)
                 if ta == 'char':
@@ -339,6 +399,12 @@ class M:
                 raise Unsupported(ast.unparse(e))
             (a, ta), (b_, tb) = self.ex(l, env), self.ex(r, env)
             ops = {ast.Lt: '<', ast.LtE: '≤', ast.Gt: '>', ast.GtE: '≥', ast.Eq: '=', ast.NotEq: '≠'}
+            if type(o) in (ast.Lt, ast.LtE, ast.Gt, ast.GtE) and {ta, tb} == {'int', 'optint'}:
+                # ordering against a variable that may hold None: the value is needed (`None` here raises in Python too)
+                if ta == 'optint':
+                    a, ta = self.hoist('Py.optGet %s' % a), 'int'
+                else:
+                    b_, tb = self.hoist('Py.optGet %s' % b_), 'int'
             if type(o) in ops and ta == tb == 'int':
                 return '(decide (%s %s %s))' % (a, ops[type(o)], b_), 'bool'
             if isinstance(o, (ast.Eq, ast.NotEq)) and ta == tb and ta in ('str', 'bool'):
@@ -413,6 +479,15 @@ class M:
                 args = self.bind(st.value, self.sigs[st.value.func.attr], env)
                 pre = self.pre(p)
                 return '%s%s(%s %s %s)' % (pre, p, lean_name(st.value.func.attr), o, ' '.join(args))
+            if getattr(self, 'ret', None) == 'optpair' and isinstance(st.value, ast.Tuple) and len(st.value.elts) == 2:
+                a = self.as_opt(st.value.elts[0], env, 'optint')
+                b_ = self.as_opt(st.value.elts[1], env, 'optint')
+                pre = self.pre(p)
+                return pre + p + '.ok (%s, %s)' % (a, b_)
+            if getattr(self, 'ret', None) == 'slist' and not isinstance(st.value, ast.Tuple):
+                a = self.typed(st.value, env, 'slist')
+                pre = self.pre(p)
+                return pre + p + '.ok %s' % a
             if getattr(self, 'ret', None) == 'slist' and isinstance(st.value, ast.Tuple) and st.value.elts:
                 a, ty = self.ex(st.value.elts[-1], env)       # (idx, settings, self.current_settings): the state handed on
                 if ty == 'slist':
@@ -507,6 +582,31 @@ class M:
                         raise Unsupported('assignment to self')
                     env = dict(env); env[t.id] = 'obj'
                     return '%slet %s : AStr := %s\n%s' % (p, mangle(t.id), src, K(env, ind))
+                # D = {idx: list(cur) for idx, _, cur in _AnsiSettingsIterator(O._fmts) if C}
+                if isinstance(v, ast.DictComp) and len(v.generators) == 1 and isinstance(v.generators[0].target, ast.Tuple) \
+                        and len(v.generators[0].target.elts) == 3 and all(isinstance(x, ast.Name) for x in v.generators[0].target.elts) \
+                        and isinstance(v.generators[0].iter, ast.Call) and isinstance(v.generators[0].iter.func, ast.Name) \
+                        and v.generators[0].iter.func.id == '_AnsiSettingsIterator' and len(v.generators[0].iter.args) == 1 \
+                        and 'iterStep' in self.sigs and t.id not in env:
+                    g = v.generators[0]
+                    d = self.is_fmts(g.iter.args[0], env)
+                    IDX, PT, CUR = [x.id for x in g.target.elts]
+                    if d and not any(x in env for x in (IDX, PT, CUR)) and isinstance(v.key, ast.Name) and v.key.id == IDX:
+                        benv = dict(env); benv[IDX] = 'int'; benv[PT] = 'point'; benv[CUR] = 'slist'
+                        self.pending = []
+                        val = self.typed(v.value, benv, 'slist')
+                        conds = [self.b(c, benv) for c in g.ifs]
+                        if self.pending:
+                            raise Unsupported('hoisted read inside a dictionary comprehension')
+                        cond = ' && '.join(conds) if conds else 'true'
+                        q = '  ' * (ind + 2)
+                        env = dict(env); env[t.id] = 'idxmap'
+                        return ('%s(List.foldlM (m := Except Exc) (fun (st_ : List (Int × List Setting) × List Setting) (%s : Int) =>\n%smatch st_ with\n%s| (acc_, cur_) =>\n'
+                                '%s(Obj.get %s.fmts %s).bind fun %s =>\n%s(iterStep cur_ %s %s).bind fun %s =>\n'
+                                '%sif %s then .ok (acc_ ++ [(%s, %s)], %s) else .ok (acc_, %s))\n%s  (([] : List (Int × List Setting)), ([] : List Setting)) (Obj.keysAsc %s.fmts)).bind fun st_ =>\n%smatch st_ with\n%s| (%s, _) =>\n%s'
+                                % (p, mangle(IDX), q, q, q, d, mangle(IDX), mangle(PT), q, mangle(PT),
+                                   'true' if getattr(self, 'with_assertions', False) else 'false', mangle(CUR),
+                                   q, cond, mangle(IDX), val, mangle(CUR), mangle(CUR), p, d, p, p, mangle(t.id), K(env, ind)))
                 # obj = self[a:b]
                 if isinstance(v, ast.Subscript) and isinstance(v.slice, ast.Slice) and v.slice.step is None and self.obj_of(v.value, env):
                     o = self.obj_of(v.value, env)
@@ -534,11 +634,11 @@ class M:
                     env = dict(env); env[t.id] = 'obj'
                     return '%slet %s : AStr := {}\n%s' % (p, mangle(t.id), K(env, ind))
                 if isinstance(v, ast.Constant) and v.value is None:
-                    ty = env.get(t.id) or self.none_type(t.id)
+                    ty = env.get(t.id) or self.none_type(t.id, env)
                     a = '(none : %s)' % LEAN_T[ty]
                 else:
                     a, ty = self.ex(v, env)
-                    want = env.get(t.id) or (self.none_type(t.id) if self.assigned_none(t.id) else None)
+                    want = env.get(t.id) or (self.none_type(t.id, env) if self.assigned_none(t.id) else None)
                     if want in BASE_OF and BASE_OF[want] == ty:
                         a, ty = '(some %s)' % a, want
                 pre = self.pre(p)
@@ -874,7 +974,9 @@ class M:
             x = tgt.id
         else:
             a_, ta_ = self.ex(rng, env)
-            if ta_ == 'str':
+            if ta_ == 'ilist':
+                src, elem = ('(%s).reverse' % a_ if rev else a_), 'int'
+            elif ta_ == 'str':
                 src, elem = ('(%s).reverse' % a_ if rev else a_), 'char'
             elif ta_ == 'slist' and not rev:
                 src, elem = a_, 'setting'
@@ -1136,9 +1238,17 @@ class M:
             env = {'self': 'obj'}
             env.update(dict(entry))
             params = list(entry)
-        text = self.block(body, env, lambda e, i: '  ' * i + '.ok %s' % self.ret_self(e), 1)
+        if getattr(self, 'ret', None) == 'optpair':
+            text = self.block(body, env, lambda e, i: (_ for _ in ()).throw(Unsupported('falls off the end')), 1)
+            rty = 'Except Exc (Option Int × Option Int)'
+        elif getattr(self, 'ret', None) == 'slist':
+            text = self.block(body, env, lambda e, i: (_ for _ in ()).throw(Unsupported('falls off the end')), 1)
+            rty = 'Except Exc (List Setting)'
+        else:
+            text = self.block(body, env, lambda e, i: '  ' * i + '.ok %s' % self.ret_self(e), 1)
+            rty = 'Except Exc AStr'
         ps = ' '.join('(%s : %s)' % (mangle(n), LEAN_T[t]) for n, t in params)
-        return '/-- %s -/\ndef %s (self : AStr) %s : Except Exc AStr :=\n%s\ndef %sOk : Bool := true\n' % (doc, name, ps, text, name)
+        return '/-- %s -/\ndef %s (self : AStr) %s : %s :=\n%s\ndef %sOk : Bool := true\n' % (doc, name, ps, rty, text, name)
 
     def lean_iter(self, name, doc, after_target, entry):
         """`_AnsiSettingsIterator.__next__` from the statement after `<after_target> = …` on: a function of the
@@ -1297,12 +1407,18 @@ def translate(fns, order, point_fns=None, iter_fns=None, with_assertions=False, 
                 m.sig = None
                 m.join = bool(spec.get('join'))
                 m.with_assertions = with_assertions
+                if spec.get('ret'):
+                    m.ret = spec['ret']
                 out.append(m.lean(ln, doc, spec.get('after'), spec['entry'], spec.get('after_store')))
             else:
                 m = M(fn, dict(sigs))
                 m.join = bool(spec.get('join'))
+                m.with_assertions = with_assertions
+                if spec.get('ret'):
+                    m.ret = spec['ret']
                 out.append(m.lean(ln, doc))
-                sigs[nm] = m.sig
+                if not spec.get('ret'):
+                    sigs[nm] = m.sig
         except Exception as e:   # noqa
             ps = ''
             try:
@@ -1312,6 +1428,6 @@ def translate(fns, order, point_fns=None, iter_fns=None, with_assertions=False, 
                     ps = ' '.join('(_%s : %s)' % (n, LEAN_T[t]) for n, t, _ in Sig(fn).params) if fn is not None else ''
             except Exception:   # noqa
                 ps = ''
-            out.append('/-- %s — NOT TRANSLATED (%s) -/\ndef %s (_self : AStr) %s : Except Exc AStr := .error .outside\ndef %sOk : Bool := false\n'
+            out.append(('/-- %s — NOT TRANSLATED (%s) -/\ndef %s (_self : AStr) %s : Except Exc ' + {'slist': '(List Setting)', 'optpair': '(Option Int × Option Int)'}.get(spec.get('ret'), 'AStr') + ' := .error .outside\ndef %sOk : Bool := false\n')
                        % (doc, (type(e).__name__ + ': ' + str(e)).replace('-/', '').replace('\n', ' ')[:300], ln, ps, ln))
     return list(zip(names, out))
